@@ -123,10 +123,51 @@ STRUCT_TEXTS = [
 ]
 
 
+# (definition, data): the class+data form on inputs whose re-serialisation is not the input (non-minimal LEB128) or impossible (dynamic union):
+# "a hex dump of exactly its bytes" are the bytes that were parsed
+TYPE_DATA = [
+    ("struct S { uint8 a; uleb128 v; uint8 t; };", bytes.fromhex("01800007")),
+    ("struct S { ileb128 v; uint16 t; };", bytes.fromhex("ff7f3412")),
+    ("struct S { uint8 a; uleb128 v[2]; };", bytes.fromhex("0181800002")),
+    ("struct S { uint8 a; union { uint8 b; char s[]; } u; };", bytes.fromhex("05616200")),
+    ("union S { uint8 n; char s[]; };", bytes.fromhex("41424300")),
+]
+
+
+def dumpstruct_type_data(res, dumpstruct):
+    from dissect.cstruct import cstruct
+    from dissect.cstruct import hexdump as _hd
+
+    for text, data in TYPE_DATA:
+        for compiled in (False, True):
+            for color in (False, True):
+                cs = cstruct()
+                cs.load(text, compiled=compiled)
+                res.evaluations += 1
+                res.states += 1
+                res.transitions += 1
+                res.nontrivial += 1
+                case = {"dumpstruct": text, "compiled": compiled, "color": color, "form": "type+data", "data": data.hex()}
+                try:
+                    out = dumpstruct(cs.S, data, color=color, output="string")
+                except Exception as e:  # noqa: BLE001
+                    res.violations.append(Violation("dumpstruct:raises", f"dumpstruct:raises|{color}|type+data", case, f"{text!r} data={data.hex()} color={color}: {impl.exc_sig(e)} {e!r}"))
+                    continue
+                parts = ANSI.sub("", out).split("\n\n")
+                hexpart = parts[0].lstrip("\n")
+                if hexpart != ANSI.sub("", _hd(data, output="string")):
+                    res.violations.append(Violation("dumpstruct:hexdump", f"dumpstruct:hexdump|{color}", case, f"{text!r} data={data.hex()}: hex part {hexpart!r} is not the hexdump of the parsed bytes"))
+                    continue
+                listed = [ln[2:].split(":")[0] for ln in (parts[1] if len(parts) > 1 else "").split("\n") if ln.startswith("- ")]
+                if listed != [f._name for f in cs.S.__fields__]:
+                    res.violations.append(Violation("dumpstruct:fields", f"dumpstruct:fields|{color}", case, f"{text!r} data={data.hex()}: listed fields {listed}"))
+
+
 def dumpstruct_text_job(tier) -> JobResult:
     from dissect.cstruct import cstruct, dumpstruct
 
     res = JobResult()
+    dumpstruct_type_data(res, dumpstruct)
     for text in STRUCT_TEXTS:
         for align in (False, True):
             for compiled in (False, True):
